@@ -230,7 +230,7 @@ def check_pair(res, drv, orb, A, B, modes=("deterministic",), seed=0, deep=True,
     if deep and st == "ok" and yes:
         # vertex sequence
         try:
-            with gu.time_limit(5):
+            with gu.time_limit(30):
                 seq = [int(v) for v in lce.lc_graph_operations(np.array(A), Q)]
             serr = None
         except gu.Timeout:
@@ -246,7 +246,7 @@ def check_pair(res, drv, orb, A, B, modes=("deterministic",), seed=0, deep=True,
             gu.viol(res, "lc_graph_operations:wrong-sequence", "the returned local-complementation sequence does not map the first graph to the second", input=inp, seq=seq)
         # find_lc_operations
         try:
-            with gu.time_limit(5):
+            with gu.time_limit(30):
                 fseq = [int(v) for v in lce.find_lc_operations(np.array(A), np.array(B))]
             ferr = None
         except gu.Timeout:
